@@ -157,11 +157,19 @@ Definition p_blabel : path := ["display"; "style"; "markers"; "color"].
 Definition p_asize0 : path := ["magnetization"; "arrow"; "size"].
 Definition p_mshow : path := ["magnetization"; "show"].
 
+Lemma alookup_In {A} (k : string) (l : list (string * A)) (v : A) : alookup k l = Some v -> In (k, v) l.
+Proof.
+  induction l as [|[k0 v0] r IH]; simpl; [discriminate|].
+  destruct (String.eqb k k0) eqn:E.
+  - apply String.eqb_eq in E. subst. intros H. inversion H. left. reflexivity.
+  - intros H. right. exact (IH H).
+Qed.
+
 Lemma nv1 : exists cs p k al, In cs style_classes /\ In (p, k, al) (sleaves (snd cs)) /\
                      shadowed (snd cs) p = true /\ two k <> [] /\ notations p <> [] /\ bad_vals k <> [].
 Proof.
   exists ("MagnetStyle", schema_MagnetStyle), p_asize0, KNumGe0, false.
-  split; [right; left; reflexivity|].
+  split; [apply alookup_In; vm_compute; reflexivity|].
   split; [apply (nth_error_In _ (leaf_index schema_MagnetStyle p_asize0)); vm_compute; reflexivity|].
   split; [vm_compute; reflexivity|]. split; [vm_compute; congruence|]. split; vm_compute; congruence.
 Qed.
